@@ -78,7 +78,7 @@ def run(chk):
     npre = 12 if chk.tier == 'quick' else 60
     chk.rule = ('fragments: corpus declarations, statements and expressions (+ generated ones) that parse alone; prefixes: %d fixed state-leaving declaration sequences + %d generated ones, each ending in a blank line; '
                 'each fragment is parsed alone (declaration: only one in a file; statement: Parser::parse_stmt; expression: Parser::expression) and embedded after each of a sample of prefixes (declaration at top level; statement in a function body; expression as an initialiser); '
-                'histories: k statements through k calls of parse_stmt on one parser.  oracle: the subtree equals the stand-alone tree with positions shifted by the prefix length.  non-trivial: (fragment, prefix) pairs with a non-empty prefix; distinct by text.' % (15, npre))
+                'level probes: declarations nested 56-67 deep after every prefix and after every optional-punctuation form (same verdict as alone); histories: k statements through k calls of parse_stmt on one parser.  oracle: the subtree equals the stand-alone tree with positions shifted by the prefix length.  non-trivial: (fragment, prefix) pairs with a non-empty prefix; distinct by text.' % (15, npre))
     pres = prefixes(rng, npre)
     decls = [d for d in streams.load('decls.txt') if not d.lstrip().startswith('import')]; stmts = streams.load('stmts.txt')
     exprs = [e[4:] for e in stmts if e.startswith('_ = ') and '\n' not in e]
@@ -141,6 +141,21 @@ def run(chk):
             chk.oracle_fail(f'embedded-differs:{kind}:{genprog.cell_of(d[0]) if not d[0].endswith(("pos", "pos0", "pos1")) and "/pos" not in d[0] else "position"}', m, text, {'path': d[0], 'embedded': json.dumps(d[2])[:160]}, {'alone(shifted)': json.dumps(d[1])[:160]}, 'the same text parses differently after other code')
     chk.count('embedded', cases, [t for (m, t), mt in zip(cases, meta) if mt[3]])
     chk.extra['pairs_equal'] = same
+    # level probes: a declaration nested right up to the parser's fixed cap is accepted / rejected alone exactly as
+    # after any prefix - one leaked nesting level anywhere in the prefix flips the verdict
+    probes = ['var x = ' + '(' * k + '1' + ')' * k for k in range(56, 68)] + ['var y = ' + '[]' * k + 'int{}' for k in range(28, 36)]
+    pp = [p_ for p_ in pres if p_] + [e + '\n' for e in genprog.OPTIONAL_FORMS]
+    pa = R.impl([R.case_line('file', HEAD + q + '\n') for q in probes], robust=True)
+    lv_cases, lv_meta = [], []
+    for q, x0 in zip(probes, pa):
+        for pre in pp:
+            lv_cases.append(('file', HEAD + pre + '\n' + q + '\n')); lv_meta.append((q, outcome(x0)[0], pre))
+    la, lb = run_both(chk, 'level-probes', lv_cases, robust=True)
+    for (m, text), (q, k0, pre), x in zip(lv_cases, lv_meta, la):
+        k1 = outcome(x)[0]
+        if k1 != k0:
+            chk.oracle_fail('level-probe', m, text, k1, k0, 'a declaration nested up to the cap is ' + ('rejected' if k0 == 'ok' else 'accepted') + ' after this prefix but not alone: the prefix left the nesting level changed')
+    chk.count('level-probes', lv_cases, [t for m, t in lv_cases])
     # histories: k statements through k calls on one parser
     hist_cases, hist_meta = [], []
     ok_stmts = [s for s in stmts if ('stmt', s) in alone and '\n' not in s]
@@ -167,5 +182,5 @@ def run(chk):
     chk.count('histories', hist_cases, [t for m, t in hist_cases])
     for (m, text), mt in list(zip(cases, meta))[:: max(1, len(cases) // 3)][:3]:
         chk.sample({'kind': mt[0], 'prefix': mt[3][:120], 'input': text[-200:]})
-    chk.programs = len(al) + len(cases) + len(hist_cases)
+    chk.programs = len(al) + len(cases) + len(hist_cases) + len(lv_cases)
     chk.disagreements_checked = chk.programs
